@@ -99,6 +99,9 @@ type Terminal struct {
 	historyPending string
 
 	posLastLF int
+
+	// afterLF: the key handled last was a line feed (LF CR is one line break)
+	afterLF bool
 }
 
 // NewTerminal runs a VT100 terminal on the given ReadWriter. If the ReadWriter is
@@ -471,6 +474,8 @@ func visualLength(runes []rune) int {
 // handleKey processes the given key and, optionally, returns a line of text
 // that the user has entered.
 func (t *Terminal) handleKey(key rune) (line []string, ok bool) {
+	afterLF := t.afterLF
+	t.afterLF = false
 	if t.pasteActive && key != keyEnter {
 		t.addKeyToLine(key)
 		return
@@ -654,8 +659,11 @@ func (t *Terminal) handleKey(key rune) (line []string, ok bool) {
 			t.pos = len(t.line)
 			t.posLastLF = t.pos
 			t.cursorX = 0
-			// replace line break with a space
-			t.addKeyToLine(32)
+			// replace line break with a space (the line feed of LF CR has
+			// left it already)
+			if !afterLF {
+				t.addKeyToLine(32)
+			}
 			t.queue([]rune("\r\n"))
 			// indent next line
 			for i := 0; i < visualLength(t.prompt); i++ {
@@ -679,6 +687,13 @@ func (t *Terminal) handleKey(key rune) (line []string, ok bool) {
 		// a typed TAB is kept as it is: between words it separates them for
 		// the engine like a blank does, inside a literal it is part of the
 		// value. (it is echoed as a blank, see writeLine)
+		if key == '\n' {
+			// a line feed (^J, or text pasted by something that does not
+			// turn it into CR) separates words like the blank that Enter
+			// leaves on an unfinished line; it does not submit anything
+			key = ' '
+			t.afterLF = true
+		}
 		if key != '\t' && !isPrintable(key) {
 			return
 		}
